@@ -21,8 +21,8 @@ from vlib.vsim import Meta, Unsupported, fmt
 
 PID = 'C20'
 RULE = ("layouts: random placement of MemWord/MemUWord/Word/UWord/SWord/Register(MemField,MemUField,Field,FlagField,PushOnNotify)/"
-        "event-counter registers (PushOnNotify + FlagOnNotify, read and write)/Array/nested RegFile/Memory(4 mask modes, inline, non "
-        "power-of-two, unaligned)/RoMemory/custom AddrRange (absolute and relative)/Input/Output in a 512 byte space, directly or "
+        "event-counter registers (PushOnNotify + FlagOnNotify, read and write)/Array/nested RegFile (with inner RegFile, Memory, AddrRange or Array)/Memory(4 mask modes, inline, non "
+        "power-of-two, unaligned)/RoMemory/custom AddrRange (absolute and relative)/Input/Output in a 512 byte space (35% leave the low addresses unmapped), directly or "
         "behind axi4_light.Interconnect (window in a 1024 byte space, rest answered by the background range); per layout "
         "several master profiles (blocking, pipelined, write-heavy skew, slow readies, random) x 150 transactions (thorough 600) "
         "with per-clock random delays on all five channels.  distinct_nontrivial = (layout, profile) runs with >= 50 answered "
